@@ -170,6 +170,9 @@ func cliAutoScript(t *testing.T, r *Rng, s *Stream) {
 				}
 				a.ev("P:" + Hex(who))
 				reply := layer.ARP{Opcode: 2, SenderMAC: who, SenderIP: net.IP(f.Payload[24:28]), TargetMAC: f.Payload[8:14], TargetIP: net.IP(f.Payload[14:18])}.Assemble()
+				if r.Bool() { // on a real segment the 28 bytes arrive padded to the Ethernet minimum (46 bytes of payload)
+					reply = append(reply, make([]byte, 18)...)
+				}
 				time.Sleep(10 * time.Millisecond)
 				seg.Inject(0x0806, reply)
 			}
@@ -254,7 +257,11 @@ func cliAutoScript(t *testing.T, r *Rng, s *Stream) {
 			} else if len(f.Payload) == 28 { // the renewing client looks up the server's hardware address: answer it
 				go func() {
 					time.Sleep(5 * time.Millisecond)
-					seg.Inject(0x0806, layer.ARP{Opcode: 2, SenderMAC: srvMAC, SenderIP: net.IP(f.Payload[24:28]), TargetMAC: f.Payload[8:14], TargetIP: net.IP(f.Payload[14:18])}.Assemble())
+					rep := layer.ARP{Opcode: 2, SenderMAC: srvMAC, SenderIP: net.IP(f.Payload[24:28]), TargetMAC: f.Payload[8:14], TargetIP: net.IP(f.Payload[14:18])}.Assemble()
+					if len(f.Payload) > 27 && f.Payload[27]%2 == 1 { // padded to the Ethernet minimum for half of the addresses
+						rep = append(rep, make([]byte, 18)...)
+					}
+					seg.Inject(0x0806, rep)
 				}()
 			}
 		case 0x0800:
@@ -421,16 +428,26 @@ func cliAutoScript(t *testing.T, r *Rng, s *Stream) {
 	}
 	lastAck := ""
 	probedSince := false
+	foreignAnswer := ""
 	for _, h := range hist {
 		switch {
 		case strings.Contains(h, " ev  A:"):
 			lastAck = h
 			probedSince = false
+			foreignAnswer = ""
 		case strings.Contains(h, " eff arp:"):
 			probedSince = true
+		case strings.Contains(h, " ev  P:"):
+			foreignAnswer = ""
+			if who := h[strings.Index(h, " ev  P:")+7:]; who != "-" && who != Hex(mac) {
+				foreignAnswer = h // another station answered the probe: the address has an owner
+			}
 		case strings.Contains(h, " eff pre:"):
 			if lastAck == "" || !probedSince {
 				fail("setiface-without-probe", "the interface was configured without a preceding ARP probe of the acknowledged address", h)
+			}
+			if foreignAnswer != "" {
+				fail("setiface-despite-conflict", "the interface was configured although another station answered the ARP probe of the acknowledged address", foreignAnswer+" -> "+h)
 			}
 		}
 	}
